@@ -29,7 +29,8 @@ def run_case(args):
     except Exception as e:
         n, problems, stats = 0, [{"what": f"model check machinery failed: {e!r}", "stdout": out[-800:]}], {}
     if rc not in (0, 1):
-        problems.append({"what": f"opensmt exit status {rc}", "stderr": err[-300:], "stdout": out[-300:]})
+        # the process died: the truncated output explains every other complaint
+        problems = [{"what": f"opensmt terminated abnormally (status {rc})", "stderr": err[-300:], "stdout": out[-300:]}]
     return {"rc": rc, "n": n, "problems": problems, "stats": stats, "stdout": out[-1500:]}
 
 
@@ -40,6 +41,9 @@ def classify(problem, case):
     if "(set-option :incremental false)" in sc and first_check >= 0 and "(assert" in sc[first_check:] \
             and "evaluates to" in problem.get("what", ""):
         return "nonincremental-assert-after-check"
+    if "terminated abnormally" in problem.get("what", "") and "SafeInt" in problem.get("stderr", "") \
+            and "QF_IDL" in sc and "(get-model)" in sc:
+        return "idl-model-safeint-underflow"
     return None
 
 
